@@ -139,9 +139,12 @@ def subst_cases(ctx):
                  "text/html;\ncharset=x", "text/html\ncharset=x;q=1", "text/html; charset=x; charset=y"]
     strings = realistic + strings
     encs = ["koi8-r", " E", "idna"]
+    # codec aliases that are all digits (Python accepts "866", "1251", "8859", "437" ...): the encoding name must be
+    # written into the value literally, whatever characters it is made of
+    digit_encs = ["866", "1251", "8859", "437"]
     cmds, cases = [], []
-    for v in strings:
-        for e in encs:
+    for vi, v in enumerate(strings):
+        for e in (encs + digit_encs if vi < 600 else encs):
             try:
                 got = ContentMetaAttributeValue(v).substitute_encoding(e)
             except Exception as ex:          # noqa: BLE001
